@@ -20,7 +20,8 @@ META = {
                    "orthogonal mixing are special cases; the identity is bilinearity); for 'dat' the same relation is decided on the stacked "
                    "past/future matrix handed to the QR factorisation; O5 the real SSI_fast on H and k^2 H under a relational SVD contract "
                    "(same singular vectors, singular values scaled by k^2 > 0): same list of models, identical state matrices, output "
-                   "matrices scaled by k.",
+                   "matrices scaled by k; O6 the real pLSCF hands np.exp arguments +-i*pi*j/(Nf-1) whatever the symbolic dt (its basis "
+                   "functions, hence its normal equations, do not depend on the declared time unit).",
     "bounds": {"quick": {"model order": 2, "channels": "2", "Hankel": "l=2, r=1..2, br=1, 8 samples"},
                "thorough": {"model order": "2..3", "channels": "2..3", "Hankel": "l=2..3, br=1..2"}},
     "stubs": ["scipy.linalg.eig / np.linalg.eig: symbolic eigenvalues and eigenvectors shared by both runs", "np.log on complex: "
@@ -80,11 +81,14 @@ def jobs(tier):
         out.append({"ob": "O4", "cfg": {"method": "dat", "l": l, "r": r, "br": br, "Ndat": nd + 4}})
     for l, br in (((1, 2), (2, 1)) if q else ((1, 2), (2, 1), (2, 2), (1, 3))):
         out.append({"ob": "O5", "cfg": {"l": l, "br": br}})
+    for nf in ((4,) if q else (4, 5, 8)):
+        for sgn in (-1, 1):
+            out.append({"ob": "O6", "cfg": {"nf": nf, "sgn": sgn}})
     return out
 
 
 def run(job, tier):
-    return {"O1": run_time, "O3": run_norm, "O4": run_hank, "O5": run_gain}[job["ob"]](job["cfg"], tier)
+    return {"O1": run_time, "O3": run_norm, "O4": run_hank, "O5": run_gain, "O6": run_basis}[job["ob"]](job["cfg"], tier)
 
 
 def decide_each(tally, e, negs, on_sat, label, timeout_ms=15000):
@@ -348,6 +352,84 @@ def run_hank_dat(cfg, tier):
     return tally.result(ex)
 
 
+class _StopBasis(Exception):
+    pass
+
+
+def run_basis(cfg, tier):
+    """time-unit covariance of the pLSCF basis: the arguments handed to np.exp when the basis functions exp(+-i omega dt) are built
+    depend on the number of frequency lines only, not on dt (so the same samples declared at k times the sampling frequency give
+    the same normal equations); dt symbolic, positive"""
+    from pyoma2.functions import plscf
+    nf, sgn = cfg["nf"], cfg["sgn"]
+    rec = {}
+
+    def exp_stub(a):
+        rec["arg"] = a
+        raise _StopBasis()
+
+    def linspace(start, stop, num=50, **kw):
+        return SymArray(np.array([lift(start) + (lift(stop) - lift(start)) * i / (num - 1) for i in range(num)], dtype=object))
+
+    W = World(overrides={"np": NPProxy(exp=exp_stub, linspace=linspace)})
+    tp = W.module(plscf)
+    tally = Tally(W, ["pLSCF"])
+    ex = Explorer()
+    st = {}
+
+    def body():
+        dt = fresh("dt", nn=True)
+        Explorer.cur.assume(dt.v > 0)
+        st["dt"] = dt
+        Sy = fresh("Sy", (1, 1, nf), complex_=True)
+        try:
+            tp.pLSCF(Sy, dt, 1, sgn_basf=sgn)
+        except _StopBasis:
+            return rec["arg"]
+        return None
+
+    import math
+    for e, (kind, res) in ex.run_all(body):
+        why, bad = [], []
+        if kind == "exc":
+            why.append(f"raised {type(res).__name__}: {res}")
+        elif res is None or np.shape(res) != (nf,):
+            why.append("np.exp was not handed one argument per frequency line")
+        else:
+            for i in range(nf):
+                a = toc(res[i])
+                want = lift(2 * math.pi) * lift(0.5) * i / (nf - 1) * sgn     # sgn * i * pi/(Nf-1), with the code's double 2*pi
+                bad += [differs(a.real, 0), differs(a.imag, want)]
+        neg = z3.BoolVal(True) if why else z3.Or(*bad)
+        tally.decide(e, neg, on_sat=lambda m, why=tuple(why): cex_basis(cfg, "; ".join(why) or None), with_side=not why,
+                     label=f"pLSCF basis argument independent of dt, Nf={nf}")
+    return tally.result(ex)
+
+
+def cex_basis(cfg, note):
+    v, d = replay_basis(cfg)
+    return {"inputs": {}, "reproduced": v, "detail": (note + " | " if note else "") + d, "key": "pLSCF:time-unit"}
+
+
+def replay_basis(cfg):
+    """real pLSCF on the same spectrum declared at non-integer sampling rates: identical coefficient matrices"""
+    from pyoma2.functions import plscf
+    rng = np.random.RandomState(6)
+    nf = max(cfg["nf"], 24)
+    Sy = rng.randn(1, 2, nf) + 1j * rng.randn(1, 2, nf)
+    ref = None
+    for dt in (0.01, 0.08, 1 / 25.6, 0.3):
+        try:
+            Ad, Bn = plscf.pLSCF(Sy, dt, 2, sgn_basf=cfg["sgn"])
+        except Exception as e:  # noqa: BLE001
+            return True, f"pLSCF raised {type(e).__name__}: {e} for dt={dt}"
+        if ref is None:
+            ref = Ad
+        elif not all(np.allclose(a, b, rtol=1e-7, atol=1e-9) for a, b in zip(Ad, ref)):
+            return True, f"pLSCF coefficient matrices depend on the declared dt (dt={dt} vs dt=0.01, same spectrum lines)"
+    return False, "coefficients independent of dt"
+
+
 class _SqSV(SV):
     """a singular value given as the square of a known positive root: sqrt() returns the root (no uninterpreted sqrt)"""
 
@@ -502,4 +584,6 @@ def replay(ob, cfg, inputs):
         return replay_norm(cfg, inputs.get("C") if isinstance(inputs, dict) else None)
     if ob == "O5":
         return replay_gain(cfg)
+    if ob == "O6":
+        return replay_basis(cfg)
     return replay_hank(cfg)
